@@ -247,6 +247,7 @@ def build_cases(tier):
         add(SortCase, n=4, first=0, last=1, kind="constraint", C=1, csort=0)
     else:
         add(SortCase, n=5, first=1, last=3)
+        add(SortCase, n=6, first=2, last=4)      # all 720 orders of six values (the property's stated exhaustive bound)
         add(SortCase, n=4, first=1, last=2, kind="constraint", C=2, csort=0)
         add(SortCase, n=4, first=0, last=2, K=3, sort=(0, 2))
     so = lambda a, b, s=(0,): {"method": "sort-objective", "options": {"sort": list(s), "first": a, "last": b}}  # noqa: E731
@@ -265,7 +266,7 @@ def build_cases(tier):
 
 META = dict(
     bounds={"quick": "n<=3 with every window 0<=first<=last<n, n=4 for two windows; K<=2 sort keys; values in [-1000,1000]",
-            "thorough": "n<=4 with every window, n=5 for one window; K<=3; mapping cases up to 3 filters on 2+2 functions",
+            "thorough": "n<=4 with every window, n=5 and n=6 (all 720 orders, every failure mask) for one window each; K<=3; mapping cases up to 3 filters on 2+2 functions",
             "outside": "larger ensembles (argsort forks n! orders); NumPy's argsort tie order beyond 16 elements"},
     stubs=["evaluator (mapping cases): fresh symbols per (realization, function)"],
     assumptions=[
